@@ -606,6 +606,28 @@ def sim_rmtree(path, *args, **kwargs):
     return _shutil.rmtree(path, *args, **kwargs)
 
 
+_builtin_hash = hash
+
+
+def sim_hash(obj):
+    """Stands in for the builtin hash() inside the library: str and bytes hash differently in every simulated process,
+    as they do in real processes (hash randomisation).  The unchanged library never calls hash(); code that starts to
+    route, shard or lock by it works within one process and breaks across processes - which one interpreter cannot show
+    without this seam.  Deterministic (CRC of the process id and the value), independent of PYTHONHASHSEED."""
+    s = ACTIVE
+    if s is None:
+        return _builtin_hash(obj)
+    if isinstance(obj, (str, bytes)):
+        import zlib
+        data = obj.encode('utf-8', 'surrogatepass') if isinstance(obj, str) else bytes(obj)
+        return zlib.crc32(data, s.cur_proc().pid * 2654435761 & 0xFFFFFFFF) - 2 ** 31
+    if isinstance(obj, tuple):
+        return _builtin_hash(tuple(sim_hash(x) for x in obj))
+    if isinstance(obj, frozenset):
+        return _builtin_hash(frozenset(sim_hash(x) for x in obj))
+    return _builtin_hash(obj)
+
+
 SIM_TIME = SimTime()
 SIM_OS = SimOS()
 SIM_PATH = SimPath()
@@ -667,6 +689,8 @@ def install():
     recipes.os = SIM_OS
     recipes.threading = SIM_THREADING
     recipes.random = SIM_RANDOM
+    for mod in (core, fanout, persistent, recipes):
+        mod.hash = sim_hash
     _installed = True
     return d
 
@@ -674,7 +698,9 @@ def install():
 def install_django():
     import django.core.cache.backends.base as base
     base.time = SIM_TIME
-    return importlib.import_module('diskcache.djangocache')
+    mod = importlib.import_module('diskcache.djangocache')
+    mod.hash = sim_hash
+    return mod
 
 
 def activate(s, root):
